@@ -540,9 +540,9 @@ func Run(c *fw.Ctx) {
 		"layout-based Chunker: Page.Layout lists carry no cross-kind order, so order is asserted per kind and across pages; a heading is covered if it is in a chunk Text or SectionPath; only headings up to MinHeadingLevel open a section; tables and images do not exist in the layout view",
 		"a heading's own chunk may report its path with or without the heading itself",
 		"page truth = the number the generator gave the page (preset Page.Number, else insertion order)")
-	n := c.N(1500, 60000)
+	n := c.N(1500, 120000)
 	c.Parallel(n, func(i int) { runCase(c, i) })
-	c.Parallel(c.N(300, 8000), func(i int) { runHTMLCase(c, i) })
+	c.Parallel(c.N(300, 16000), func(i int) { runHTMLCase(c, i) })
 	fixedCases(c)
 	if c.Only == "" && c.Evaluations() < int64(n) {
 		c.Inconclusive("fewer cases executed than planned")
